@@ -623,7 +623,8 @@ func (e *env) fatal(sc *Scenario, out *Outcome, what string) {
 	if fatalHook != nil {
 		fatalHook(sc, out)
 	}
-	panic("C14 harness: " + what)
+	fmt.Println("C14 harness: goroutines blocked for good:", what)
+	os.Exit(1)
 }
 
 type Outcome struct {
@@ -662,20 +663,25 @@ func runScenario(t *testing.T, sc *Scenario, r *vlib.Rand, maxSteps int) *Outcom
 		e.parent = parent
 		var st stream.Stream[int]
 		var it iterator.Iterator[int]
-		if sc.Variant == "stream" {
-			st = parallel.MapStream[int, int](parent, &srcStream{e}, sc.P, sc.B, func(ctx context.Context, x int) (int, error) {
-				c := e.fEnter(x)
-				r := e.fBody(c)
-				e.fLeave(c, r)
-				return r.v, r.err
-			})
-		} else {
-			it = parallel.MapIterator[int, int](&srcIter{e}, sc.P, sc.B, func(x int) int {
-				c := e.fEnter(x)
-				r := e.fBody(c)
-				e.fLeave(c, r)
-				return r.v
-			})
+		if p, val := vlib.Try(func() {
+			if sc.Variant == "stream" {
+				st = parallel.MapStream[int, int](parent, &srcStream{e}, sc.P, sc.B, func(ctx context.Context, x int) (int, error) {
+					c := e.fEnter(x)
+					r := e.fBody(c)
+					e.fLeave(c, r)
+					return r.v, r.err
+				})
+			} else {
+				it = parallel.MapIterator[int, int](&srcIter{e}, sc.P, sc.B, func(x int) int {
+					c := e.fEnter(x)
+					r := e.fBody(c)
+					e.fLeave(c, r)
+					return r.v
+				})
+			}
+		}); p {
+			e.viol("panic", fmt.Sprintf("the constructor panicked: %v (parallelism %d, bufferSize %d)", val, sc.P, sc.B), map[string]interface{}{"b": sc.B, "p": sc.P})
+			return
 		}
 		cmds := make(chan cmd)
 		var wg sync.WaitGroup
@@ -1194,6 +1200,15 @@ func TestVerif(t *testing.T) {
 		return
 	}
 
+	fatalHook = func(sc *Scenario, o *Outcome) {
+		for _, v := range o.Viols {
+			res.Fail(vlib.Failure{Source: "monitor", Kind: v.Kind, Params: v.Params, What: v.What, Case: sc})
+		}
+		res.Fail(vlib.Failure{Source: "monitor", Kind: "blocked-for-good", Params: map[string]interface{}{"variant": sc.Variant}, What: o.Fatal, Case: sc})
+		res.Write(env.Out)
+		fmt.Println("C14 harness: goroutines blocked for good; result written:", o.Fatal)
+		os.Exit(1)
+	}
 	for _, f := range vlib.CorpusFiles(env.Corpus, ".json") {
 		b, err := os.ReadFile(f)
 		if err != nil {
@@ -1206,15 +1221,6 @@ func TestVerif(t *testing.T) {
 		res.Count("corpus")
 		o := check(t, &sc, nil, ms, res, env)
 		res.Case(sc.key(), nontrivial(&sc, o), nil)
-	}
-	fatalHook = func(sc *Scenario, o *Outcome) {
-		for _, v := range o.Viols {
-			res.Fail(vlib.Failure{Source: "monitor", Kind: v.Kind, Params: v.Params, What: v.What, Case: sc})
-		}
-		res.Fail(vlib.Failure{Source: "monitor", Kind: "blocked-for-good", Params: map[string]interface{}{"variant": sc.Variant}, What: o.Fatal, Case: sc})
-		res.Write(env.Out)
-		fmt.Println("C14 harness: goroutines blocked for good; result written:", o.Fatal)
-		os.Exit(1)
 	}
 	r := vlib.NewRand(env.Seed)
 	deadline := env.Deadline()
